@@ -537,10 +537,13 @@ pub(crate) async fn connect(spec: ConnectSpec) -> io::Result<crate::net::TcpStre
         (Some(b), _) if !b.ip().is_unspecified() => b.ip(),
         (_, Some(ip)) => ip,
         _ => {
-            if dst.is_ipv4() {
-                IpAddr::V4(w.cfg.proxy_v4)
-            } else {
-                IpAddr::V6(w.cfg.proxy_v6)
+            // (a loopback destination is reached from the loopback address, as for UDP: udp::source_for)
+            match dst.ip() {
+                IpAddr::V4(a) if a.is_loopback() => IpAddr::V4(Ipv4Addr::LOCALHOST),
+                IpAddr::V4(_) => IpAddr::V4(w.cfg.proxy_v4),
+                IpAddr::V6(a) if a.is_loopback() => IpAddr::V6(Ipv6Addr::LOCALHOST),
+                IpAddr::V6(a) if a.to_ipv4_mapped().map(|m| m.is_loopback()).unwrap_or(false) => IpAddr::V4(Ipv4Addr::LOCALHOST),
+                IpAddr::V6(_) => IpAddr::V6(w.cfg.proxy_v6),
             }
         }
     };
